@@ -79,3 +79,53 @@ package xmaps
 //@   ensures forall k K {has(m, k)} :: m != nil && has(m, k) ==> has(result0, m[k])
 //@   ensures forall v V {has(result0, v)} :: has(result0, v) ==> m != nil && has(m, result0[v]) && m[result0[v]] == v
 //@   ensures result1 <==> (forall k1 K, k2 K {has(m, k1), has(m, k2)} :: m != nil && has(m, k1) && has(m, k2) && k1 != k2 ==> m[k1] != m[k2])
+
+// Reverse: result[v] lists exactly the keys k with m[k] == v, each once (ghost pos[k] = its index).
+//@ func Reverse
+//@   props C19
+//@   ghostinit pos := lambda k K :: 0
+//@   after store result[0]: ghost pos := store(pos, k, len(result[v]) - 1)
+//@   loop 0: invariant result != nil && fresh(result)
+//@   loop 0: invariant forall w V {result[w]} :: has(result, w) ==> fresh(result[w]) && len(result[w]) >= 1
+//@   loop 0: invariant forall w V, x V {result[w], result[x]} :: has(result, w) && has(result, x) && w != x ==> arr(result[w]) != arr(result[x])
+//@   loop 0: invariant forall w V, j int {result[w][j]} :: has(result, w) && 0 <= j && j < len(result[w]) ==> visited0[result[w][j]] && m[result[w][j]] == w && pos[result[w][j]] == j
+//@   loop 0: invariant forall q K {visited0[q]} :: visited0[q] ==> has(result, m[q]) && 0 <= pos[q] && pos[q] < len(result[m[q]]) && result[m[q]][pos[q]] == q
+//@   ensures result != nil && fresh(result)
+//@   ensures forall w V, j int {result[w][j]} :: has(result, w) && 0 <= j && j < len(result[w]) ==> m != nil && has(m, result[w][j]) && m[result[w][j]] == w && pos[result[w][j]] == j
+//@   ensures forall w V {result[w]} :: has(result, w) ==> len(result[w]) >= 1
+//@   ensures forall q K {has(m, q)} :: m != nil && has(m, q) ==> has(result, m[q]) && 0 <= pos[q] && pos[q] < len(result[m[q]]) && result[m[q]][pos[q]] == q
+
+// Intersection / Intersects: the clone of the argument slice is sorted by size (xsort.Slice, trusted:
+// some permutation), so `sets` inside the loops is a permutation of old(sets): perm/inv witnesses.
+//@ func Intersection
+//@   props C19
+//@   ghostinit perm := lambda j int :: 0
+//@   ghostinit inv := lambda j int :: 0
+//@   after call Slice[0]: ghost perm := callghost_perm
+//@   after call Slice[0]: ghost inv := callghost_inv
+//@   loop 0: invariant out != nil && fresh(out) && len(sets) == old(len(sets)) && len(sets) > 0
+//@   loop 0: invariant (forall j int {perm[j]} {noix} :: inv[perm[j]] == j) && (forall t int {inv[t]} {noix} :: perm[inv[t]] == t)
+//@   loop 0: invariant forall j int {sets[j]} :: 0 <= j && j < len(sets) ==> sets[j] != out && !fresh(sets[j]) && 0 <= perm[j] && perm[j] < len(sets) && sets[j] == old(sets[perm[j]])
+//@   loop 0: invariant forall t int {inv[t]} {old(sets[t])} :: 0 <= t && t < len(sets) ==> 0 <= inv[t] && inv[t] < len(sets) && sets[inv[t]] == old(sets[t])
+//@   loop 0: invariant forall k T {has(out, k)} :: has(out, k) <==> (visited0[k] && (forall j int {sets[j]} :: 1 <= j && j < len(sets) ==> sets[j] != nil && has(sets[j], k)))
+//@   loop 1: invariant 1 <= j && j <= len(sets) && include && (forall t int {sets[t]} :: 1 <= t && t < j ==> sets[t] != nil && has(sets[t], k))
+//@   ensures result != nil && fresh(result)
+//@   ensures forall k T {has(result, k)} :: has(result, k) ==> (len(sets) > 0 && (forall t int {sets[t]} :: 0 <= t && t < len(sets) ==> sets[t] != nil && has(sets[t], k)))
+//@   ensures forall k T {has(result, k)} :: (len(sets) > 0 && touch(row(sets)) && (forall t int {sets[t]} :: 0 <= t && t < len(sets) ==> sets[t] != nil && has(sets[t], k))) ==> has(result, k)
+
+//@ func Intersects
+//@   props C19
+//@   ghostinit perm := lambda j int :: 0
+//@   ghostinit inv := lambda j int :: 0
+//@   after call Slice[0]: ghost perm := callghost_perm
+//@   after call Slice[0]: ghost inv := callghost_inv
+//@   ghostinit wit := zero(T)
+//@   after assign include[0]: ghost wit := k
+//@   loop 0: invariant len(sets) == old(len(sets)) && len(sets) > 0
+//@   loop 0: invariant (forall j int {perm[j]} {noix} :: inv[perm[j]] == j) && (forall t int {inv[t]} {noix} :: perm[inv[t]] == t)
+//@   loop 0: invariant forall j int {sets[j]} :: 0 <= j && j < len(sets) ==> 0 <= perm[j] && perm[j] < len(sets) && sets[j] == old(sets[perm[j]])
+//@   loop 0: invariant forall t int {inv[t]} {old(sets[t])} :: 0 <= t && t < len(sets) ==> 0 <= inv[t] && inv[t] < len(sets) && sets[inv[t]] == old(sets[t])
+//@   loop 0: invariant forall k T {visited0[k]} :: visited0[k] ==> !(forall t int {old(sets[t])} :: 0 <= t && t < len(sets) ==> old(sets[t]) != nil && has(old(sets[t]), k))
+//@   loop 1: invariant wit == k && 1 <= j && j <= len(sets) && include && (forall t int {sets[t]} :: 1 <= t && t < j ==> sets[t] != nil && has(sets[t], k))
+//@   ensures result ==> len(sets) > 0 && (forall t int {sets[t]} :: 0 <= t && t < len(sets) ==> sets[t] != nil && has(sets[t], wit))
+//@   ensures forall k T {has(sets[0], k)} :: (!result && len(sets) > 0 && touch(row(sets)) && (forall t int {sets[t]} :: 0 <= t && t < len(sets) ==> sets[t] != nil && has(sets[t], k))) ==> false
